@@ -93,6 +93,7 @@ func c19(c *core.Check) {
 	c.Explain = "Structural necessary conditions of counter rendering, decided on the type-checked source: no integer division or modulo of css/counters can see a zero divisor and no modulo result that indexes the symbol list can be negative (path-condition reachability under the scenarios divisor==0 / dividend<0, with coinductive reasoning on loop-carried values); the vocabulary of counter systems agrees between the @counter-style validator, symbols(), Validate and the renderer; each system name dispatches to its algorithm, the negative-sign set and the automatic ranges are those of Counter Styles 3; the extends and fallback walks consult and extend a visited set. The arithmetic of each system and counter scoping are not decided."
 	c.Assume = []string{"the counter style named decimal cannot be redefined by a document once the user-agent sheet defined it (validation.ParseCounterStyleName refuses it), so falling back to decimal terminates"}
 
+	c19Merge(c)
 	r1 := c.Rule("R1", "every integer / and % of css/counters has a divisor proven non-zero, and every % whose result indexes a list has a dividend proven non-negative (Go's % keeps the sign of the dividend)", 12)
 	divisionRule(c, r1, inPkgs("css/counters"))
 	// the sign is accounted for in the padding exactly when it is written: both steps test isNegative && useNegative
@@ -413,4 +414,86 @@ func c19(c *core.Check) {
 		r3.Cond(!isNil && viaResolve, "renderValue fallback recursion keeps the visited set", p.Pos(call.Pos()), "recursive call passes previousTypes to resolveCounter and to itself", "the recursive call starts from a fresh / different visited set: fallback cycles recurse forever")
 	})
 	r3.Cond(nRec >= 1, "renderValue has a fallback recursion", p.Pos(rv.Pos()), fmt.Sprint(nRec), "no recursive fallback call found")
+}
+
+// c19Merge: descriptors inherited through `extends` replace only the descriptors the extending style did not set.
+func c19Merge(c *core.Check) {
+	p := c.Prog
+	r := c.Rule("R6", "extends: CounterStyleDescriptors.merge takes a descriptor from the extended style exactly when the extending style did not set it — each `desc.F = src.F` is guarded by a test of the whole field F (its IsNone() when the type has one, a comparison of the field with its zero value otherwise), never of a part of it (range: auto has no list of ranges and is still set)", 8)
+	fn := p.Method("css/counters", "CounterStyleDescriptors", "merge")
+	if fn == nil {
+		r.Anchor("css/counters.(*CounterStyleDescriptors).merge")
+		return
+	}
+	body := p.Body(fn)
+	if body == nil {
+		r.Anchor("body of merge")
+		return
+	}
+	recvT := fn.Params[0].Type()
+	var st *types.Struct
+	if pt, ok := recvT.Underlying().(*types.Pointer); ok {
+		st, _ = pt.Elem().Underlying().(*types.Struct)
+	}
+	hasIsNone := func(field string) bool {
+		if st == nil {
+			return false
+		}
+		for i := 0; i < st.NumFields(); i++ {
+			if st.Field(i).Name() == field {
+				ms := types.NewMethodSet(st.Field(i).Type())
+				for j := 0; j < ms.Len(); j++ {
+					if ms.At(j).Obj().Name() == "IsNone" {
+						return true
+					}
+				}
+			}
+		}
+		return false
+	}
+	fieldOf := func(e ast.Expr, recv string) string {
+		sel, ok := e.(*ast.SelectorExpr)
+		if !ok {
+			return ""
+		}
+		id, ok := sel.X.(*ast.Ident)
+		if !ok || id.Name != recv {
+			return ""
+		}
+		return sel.Sel.Name
+	}
+	for _, stmt := range body.List {
+		ifs, ok := stmt.(*ast.IfStmt)
+		if !ok || len(ifs.Body.List) != 1 {
+			continue
+		}
+		as, ok := ifs.Body.List[0].(*ast.AssignStmt)
+		if !ok || len(as.Lhs) != 1 || len(as.Rhs) != 1 {
+			continue
+		}
+		f := fieldOf(as.Lhs[0], "desc")
+		if f == "" || fieldOf(as.Rhs[0], "src") != f {
+			continue
+		}
+		key := "css/counters.merge | " + f
+		whole, how := false, ""
+		switch cnd := ifs.Cond.(type) {
+		case *ast.CallExpr:
+			if sel, ok := cnd.Fun.(*ast.SelectorExpr); ok && sel.Sel.Name == "IsNone" && fieldOf(sel.X, "desc") == f {
+				whole, how = true, "desc."+f+".IsNone()"
+			}
+		case *ast.BinaryExpr:
+			if cnd.Op == token.EQL && fieldOf(cnd.X, "desc") == f {
+				if hasIsNone(f) {
+					how = "the field's type has IsNone() and the test does not use it"
+				} else {
+					whole, how = true, "desc."+f+" == zero value"
+				}
+			}
+		}
+		if !whole && how == "" {
+			how = "the guard `" + p.NodeText(ifs.Cond) + "` does not test the field as a whole"
+		}
+		r.Cond(whole, key, p.Pos(ifs.Pos()), how, how+": a descriptor that was set to a value with an empty part is overwritten by the extended style's")
+	}
 }
